@@ -20,7 +20,7 @@ func TestVerifC01(t *testing.T) {
 	if r.Thorough() {
 		maxCuts = 3
 	}
-	r.SetBound(fmt.Sprintf("all block partitions with <=%d cuts + all uniform block sizes, stream length 4*nsamp+14, (npre,nsamp) in {(3,5),(4,14)}, signed/unsigned, 13 trigger configurations (edge, level, auto, combined, edge-multi x3) + group secondaries, 5 control histories, single/double pulses, fast pulses followed by a slow level-only pulse", maxCuts))
+	r.SetBound(fmt.Sprintf("all block partitions with <=%d cuts + all uniform block sizes, stream length 4*nsamp+14, (npre,nsamp) in {(3,5),(4,14)}, signed/unsigned, 13 trigger configurations (edge, level, auto, combined, edge-multi x3) + group secondaries, 5 control histories, single/double pulses, fast pulses followed by a slow level-only pulse; a third channel with the same settings and pulses at other times (blocks in which only one of the two triggering channels has primaries); ConfigurePulseLengths after block 1 from (4,34) to (3,5), (3,5) to (4,30), (8,30) to (3,9) on streams of 2*nsamp+14", maxCuts))
 	vTrigCases(r, true, func(id string, sc *vTrigScenario) {
 		built := false
 		r.DFS(id, -1, func(x *vexp.X) vexp.Result {
